@@ -599,15 +599,17 @@ Proof.
   - cbn [app best_of]. destruct cur as [c|]; [destruct (rank_ltb (fst c) (fst e))|]; apply IH.
 Qed.
 
-Lemma best_first_max (g : route -> bool) : forall rs,
-  match best_of None (filter g rs) with
+Definition best_ok (g : route -> bool) (rs : list route) (r : option route) : Prop :=
+  match r with
   | None => forall e, In e rs -> g e = false
   | Some e => exists i, nth_error rs i = Some e /\ g e = true /\
        forall j e', nth_error rs j = Some e' -> g e' = true ->
           rkey (fst e') <= rkey (fst e) /\ (rkey (fst e') < rkey (fst e) \/ i <= j)
   end.
+
+Lemma best_first_max (g : route -> bool) : forall rs, best_ok g rs (best_of None (filter g rs)).
 Proof.
-  induction rs as [|x rs IH] using rev_ind.
+  unfold best_ok. induction rs as [|x rs IH] using rev_ind.
   - cbn [filter best_of]. intros e [].
   - rewrite filter_app. cbn [filter]. destruct (g x) eqn:G.
     + rewrite best_of_snoc. destruct (best_of None (filter g rs)) as [c|].
@@ -761,24 +763,46 @@ Qed.
 (* 14. C11/C12 consequences                                            *)
 (* ================================================================== *)
 
+Definition gL (us : list bytes) (e : route) : bool := all_lit (fst e) && matchb (fst e) us.
+Definition gM (us : list bytes) (e : route) : bool := matchb (fst e) us.
+
+Lemma spec_route_cases t m uri : exists fo r,
+  find (gL (path_segs uri)) (routes_of t m) = fo /\
+  best_ok (gM (path_segs uri)) (routes_of t m) r /\
+  spec_route t m uri =
+  match fo with
+  | Some e => Found (snd e) []
+  | None => match r with
+            | Some e => Found (snd e) (bindings (fst e) (path_segs uri))
+            | None => Fallback
+            end
+  end.
+Proof.
+  exists (find (gL (path_segs uri)) (routes_of t m)),
+         (best_of None (filter (gM (path_segs uri)) (routes_of t m))).
+  split; [reflexivity | split; [apply best_first_max | reflexivity]].
+Qed.
+
 Theorem route_params : forall t m uri h ps, wf_table t = true -> match_route t m uri = Found h ps ->
   exists i pat, selected (routes_of t m) (path_segs uri) i pat h /\ ps = bindings pat (path_segs uri).
 Proof.
   intros t m uri h ps Hwf H. rewrite (route_refines_spec t m uri Hwf) in H.
-  unfold spec_route in H. set (us := path_segs uri) in *. set (rs := routes_of t m) in *.
-  destruct (find (fun e => all_lit (fst e) && matchb (fst e) us) rs) as [e|] eqn:F.
-  - apply find_some in F. destruct F as [Hin Hg]. apply andb_true_iff in Hg. destruct Hg as [HL HM].
+  destruct (spec_route_cases t m uri) as (fo & r & F & HB & Hs). rewrite Hs in H. clear Hs.
+  set (us := path_segs uri) in *. set (rs := routes_of t m) in *.
+  destruct fo as [e|].
+  - apply find_some in F. destruct F as [Hin Hg]. unfold gL in Hg.
+    apply andb_true_iff in Hg. destruct Hg as [HL HM].
     destruct e as [p h0]. cbn [fst snd] in *. injection H as <- <-.
     destruct (In_nth_error _ _ Hin) as [i Hi]. exists i, p. split.
     + split; [exact Hi | split; [apply matchb_matches; exact HM | left; exact HL]].
     + symmetry. apply all_lit_bindings. exact HL.
-  - pose proof (best_first_max (fun e => matchb (fst e) us) rs) as HB.
-    destruct (best_of None (filter (fun e => matchb (fst e) us) rs)) as [e|]; [|discriminate].
+  - destruct r as [e|]; [|discriminate]. unfold best_ok, gM in HB.
     destruct HB as (i & Hi & HM & Hmax). destruct e as [p h0]. cbn [fst snd] in *.
     injection H as <- <-. exists i, p. split; [|reflexivity].
     split; [exact Hi | split; [apply matchb_matches; exact HM | right]]. split.
     + intros p' h' Hin HL HM'. apply matches_matchb in HM'.
-      pose proof (find_none _ _ F (p', h') Hin) as Hn. cbn [fst] in Hn. rewrite HL, HM' in Hn. discriminate.
+      pose proof (find_none _ _ F (p', h') Hin) as Hn. unfold gL in Hn. cbn [fst] in Hn.
+      rewrite HL, HM' in Hn. discriminate.
     + intros j p' h' Hj HM'. apply matches_matchb in HM'.
       destruct (Hmax j (p', h') Hj HM') as [H1 H2]. cbn [fst] in *. rewrite !rank_ltb_key. split.
       * apply Nat.ltb_ge. exact H1.
@@ -804,19 +828,17 @@ Theorem route_fallback_iff : forall t m uri, wf_table t = true ->
    forall pat h, In (pat, h) (routes_of t m) -> ~ matches pat (path_segs uri)).
 Proof.
   intros t m uri Hwf. rewrite (route_refines_spec t m uri Hwf).
-  unfold spec_route. set (us := path_segs uri). set (rs := routes_of t m).
+  destruct (spec_route_cases t m uri) as (fo & r & F & HB & Hs). rewrite Hs. clear Hs.
+  set (us := path_segs uri) in *. set (rs := routes_of t m) in *.
   split.
   - intros H p h Hin HM. apply matches_matchb in HM.
-    destruct (find (fun e => all_lit (fst e) && matchb (fst e) us) rs) as [e|]; [discriminate|].
-    pose proof (best_first_max (fun e => matchb (fst e) us) rs) as HB.
-    destruct (best_of None (filter (fun e => matchb (fst e) us) rs)) as [e|]; [discriminate|].
-    specialize (HB (p, h) Hin). cbn [fst] in HB. rewrite HM in HB. discriminate.
-  - intros H.
-    destruct (find (fun e => all_lit (fst e) && matchb (fst e) us) rs) as [e|] eqn:F.
-    + apply find_some in F. destruct F as [Hin Hg]. apply andb_true_iff in Hg. destruct Hg as [_ HM].
+    destruct fo as [e|]; [discriminate|]. destruct r as [e|]; [discriminate|].
+    unfold best_ok, gM in HB. specialize (HB (p, h) Hin). cbn [fst] in HB. rewrite HM in HB. discriminate.
+  - intros H. destruct fo as [e|].
+    + apply find_some in F. destruct F as [Hin Hg]. unfold gL in Hg.
+      apply andb_true_iff in Hg. destruct Hg as [_ HM].
       destruct e as [p h]. exfalso. apply (H p h Hin). apply matchb_matches. exact HM.
-    + pose proof (best_first_max (fun e => matchb (fst e) us) rs) as HB.
-      destruct (best_of None (filter (fun e => matchb (fst e) us) rs)) as [e|]; [|reflexivity].
+    + destruct r as [e|]; [|reflexivity]. unfold best_ok, gM in HB.
       destruct HB as (i & Hi & HM & _). destruct e as [p h]. exfalso.
       apply (H p h); [apply (nth_error_In _ i); exact Hi | apply matchb_matches; exact HM].
 Qed.
@@ -826,14 +848,17 @@ Theorem route_literal_wins : forall t m uri pat h, wf_table t = true ->
   match_route t m uri = Found h [].
 Proof.
   intros t m uri p h Hwf Hin HL HM. rewrite (route_refines_spec t m uri Hwf).
-  unfold spec_route. pose proof (routes_of_uniq t m) as Hu.
+  destruct (spec_route_cases t m uri) as (fo & r & F & _ & Hs). rewrite Hs. clear Hs.
+  pose proof (routes_of_uniq t m) as Hu.
   set (us := path_segs uri) in *. set (rs := routes_of t m) in *.
   apply matches_matchb in HM.
-  destruct (find (fun e => all_lit (fst e) && matchb (fst e) us) rs) as [e|] eqn:F.
-  - apply find_some in F. destruct F as [Hin' Hg]. apply andb_true_iff in Hg. destruct Hg as [HL' HM'].
+  destruct fo as [e|].
+  - apply find_some in F. destruct F as [Hin' Hg]. unfold gL in Hg.
+    apply andb_true_iff in Hg. destruct Hg as [HL' HM'].
     destruct e as [p' h']. cbn [fst snd] in *.
     assert (p' = p) as ->.
     { rewrite (all_lit_matchb p' us HL' HM'), (all_lit_matchb p us HL HM). reflexivity. }
     rewrite (uniq_handler rs p h' h Hu Hin' Hin). reflexivity.
-  - pose proof (find_none _ _ F (p, h) Hin) as Hn. cbn [fst] in Hn. rewrite HL, HM in Hn. discriminate.
+  - pose proof (find_none _ _ F (p, h) Hin) as Hn. unfold gL in Hn. cbn [fst] in Hn.
+    rewrite HL, HM in Hn. discriminate.
 Qed.
